@@ -765,41 +765,68 @@ class Interp:
         return 0
 
     def b_sort(self, args):
-        """POSIX sort with -k keys (field separators: blank-to-non-blank transitions; inputs here have single
-        blanks and no leading blanks), modifiers n and r, bytewise collation (LC_ALL=C); last resort: whole line."""
+        """GNU sort with -k keys under LC_ALL=C: option letters in front of a k (as in -nrk2,2) are global and are
+        inherited by every key that has no letters of its own (as -k2,2 in -nrk2,2, or -k3 in -rk3); letters after the
+        key positions (-k2,2r) belong to that key only. Fields are separated at blank-to-non-blank transitions and
+        include their leading blanks; n compares the leading number (after blanks), otherwise bytes. Lines equal on
+        all keys are ordered by the whole line (last resort), reversed under a global r."""
         import functools
         import re as _re
         keys = []
+        glob = set()
         for a in args:
-            m = _re.fullmatch(r'-([nr]*)k(\d+)(?:,(\d+))?([nr]*)', a)
-            if not m:
+            m = _re.fullmatch(r'-([nr]*)(?:k(\d+)(?:,(\d+))?([nr]*))?', a)
+            if not m or a == '-':
                 raise Unsupported('sort argument %r' % (a,))
-            flags = m.group(1) + m.group(4)
-            keys.append((int(m.group(2)), int(m.group(3)) if m.group(3) else None, 'n' in flags, 'r' in flags))
+            glob |= set(m.group(1))
+            if m.group(2):
+                keys.append((int(m.group(2)), int(m.group(3)) if m.group(3) else None, set(m.group(4))))
         if not keys:
             raise Unsupported('sort without keys')
         lines = self.stdin[-1] if self.stdin else []
+        for l in lines:
+            if not isinstance(l, str):
+                raise Unsupported('sort of symbolic lines')
+
+        def fields(l):
+            out = []
+            k = 0
+            n = len(l)
+            while k < n:
+                st = k
+                while k < n and l[k] in ' \t':
+                    k += 1
+                while k < n and l[k] not in ' \t':
+                    k += 1
+                out.append(l[st:k])
+            return out
 
         def field(l, a, b):
-            f = l.split(' ')
-            return ' '.join(f[a - 1:(b if b is not None else len(f))])
+            f = fields(l)
+            return ''.join(f[a - 1:(b if b is not None else len(f))])
 
         def num(x):
-            m = _re.match(r'\s*(-?\d+)', x)
-            return int(m.group(1)) if m else 0
+            m = _re.match(r'[ \t]*(-?\d*(?:\.\d*)?)', x)
+            t = m.group(1) if m else ''
+            try:
+                return float(t) if t not in ('', '-', '.', '-.') else 0.0
+            except ValueError:
+                return 0.0
 
         def cmp(x, y):
-            for (a, b, n, r) in keys:
+            for (a, b, own) in keys:
+                fl = own if own else glob
                 fx, fy = field(x, a, b), field(y, a, b)
-                if n:
+                if 'n' in fl:
                     kx, ky = num(fx), num(fy)
                 else:
                     kx, ky = fx.encode(), fy.encode()
                 if kx != ky:
                     c = -1 if kx < ky else 1
-                    return -c if r else c
+                    return -c if 'r' in fl else c
             if x != y:
-                return -1 if x.encode() < y.encode() else 1
+                c = -1 if x.encode() < y.encode() else 1
+                return -c if 'r' in glob else c
             return 0
         for l in sorted(lines, key=functools.cmp_to_key(cmp)):
             self.out(l + '\n')
